@@ -365,9 +365,18 @@ impl PrintMon {
 		self.rep.evaluations += 1;
 		if self.rep.evaluations % 7 == 3 {
 			// a print that fails half-way (bounded sink) must not influence the next one
-			if let Ok(full) = print_real(v, o) {
+			// ... printed with *other* options than the print under test, so that anything left behind would matter
+			let mut alt = *o;
+			if alt.array_limit.is_none() && alt.object_limit.is_none() {
+				alt.array_limit = Some(PLimit::Always);
+				alt.object_limit = Some(PLimit::Item(0));
+			} else {
+				alt.array_limit = None;
+				alt.object_limit = None;
+			}
+			if let Ok(full) = print_real(v, &alt) {
 				let cap = (full.len() * (self.rep.evaluations as usize % 5)) / 5;
-				if let Err(m) = print_into_failing_sink(v, o.to_real(), &full, cap) {
+				if let Err(m) = print_into_failing_sink(v, alt.to_real(), &full, cap) {
 					let id = if self.c04 { "C04" } else { "C13" };
 					self.rep.violation(format!("{}:failing-sink", id), format!("[{}] {} (value {}, options {})", fam, m, show(doc_of(r).as_bytes()), opts_json(o)), case_json("print", r, o));
 				}
